@@ -256,6 +256,8 @@ def main(argv=None):
     print(f'[{a.pid} {a.tier}] jobs={len(results)} paths={n_paths} queries={cov["evaluations"]} '
           f'unsat={agg.get("unsat", 0)} sat={agg.get("sat", 0)} unknown={agg.get("unknown", 0)} '
           f'solver_s={agg.get("solver_seconds", 0):.1f} wall_s={wall:.1f}')
+    slow = sorted(results, key=lambda r: -r['wall_s'])[:3]
+    print('  slowest jobs: ' + ', '.join(f'{r["name"]} {r["wall_s"]:.0f}s' for r in slow))
     if violations:
         print('violated labels:', sorted({v['label'] for v in violations}))
         d = os.path.join(VERIF, 'replays', a.pid)
